@@ -371,6 +371,8 @@ func (fv *FV) run() {
 			continue
 		}
 		exitPCs = append(exitPCs, ex.env.pc)
+		fv.obls = append(fv.obls, &Obligation{Name: fmt.Sprintf("%s#reach.return%d", u.Name(), k+1), Kind: "reach", Func: u.Name(), Pos: fv.posStr(ex.pos),
+			Desc: "this return is reachable under the assumptions (informational)", Expect: "not-unsat", upto: fv.s.mark(), goal: not(ex.env.pc)})
 		fv.checkExit(ex, k)
 	}
 	if len(exitPCs) > 0 {
@@ -578,7 +580,7 @@ func (eng *Engine) discharge(fv *FV) {
 			if eng.keepSMT {
 				os.WriteFile(filepath.Join(dir, fmt.Sprintf("%03d_%s.smt2", i, strings.ReplaceAll(sanitize(o.Name), "/", "_"))), []byte(text), 0o644)
 			}
-			if o.Kind == "canary" {
+			if o.Kind == "canary" || o.Kind == "reach" {
 				// a canary must NOT be refutable: a short run that does not answer unsat is a pass
 				r := runOne(context.Background(), solvers[0], dir, fmt.Sprintf("q%03d", i), text, 2)
 				o.Status, o.Solver, o.Secs, o.Output = r.Status, r.Solver, r.Secs, r.Output
